@@ -646,7 +646,7 @@ impl Check for C17 {
             pool.remove(i);
         }
         let big = backend != "mem" && rng.gen_bool(0.15);
-        let mapfull = backend == "lmdb" && rng.gen_bool(0.03);
+        let mapfull = backend == "lmdb" && rng.gen_bool(0.05);
         let n = rng.gen_range(3..=40);
         let mut events = Vec::new();
         for _ in 0..n {
@@ -655,9 +655,11 @@ impl Check for C17 {
                 0..=4 => Call::Put { ks, doc: gen_doc(&mut rng, &pool, big), with_ctx: rng.gen_bool(0.3) },
                 5..=7 => {
                     let mut docs: Vec<Doc> = Vec::new();
+                    // (one bulk call in seven may name an id more than once: the later entry counts)
+                    let dups = rng.gen_bool(0.15);
                     for _ in 0..rng.gen_range(1..=4) {
                         let d = gen_doc(&mut rng, &pool, false);
-                        if !docs.iter().any(|x| x.id == d.id) {
+                        if dups || !docs.iter().any(|x| x.id == d.id) {
                             docs.push(d);
                         }
                     }
@@ -666,9 +668,10 @@ impl Check for C17 {
                 8..=10 => Call::Mark { ks, id: gen_id(&mut rng, &pool), ts: gen_ts(&mut rng) },
                 11..=12 => {
                     let mut items: Vec<(u64, Ts)> = Vec::new();
+                    let dups = rng.gen_bool(0.15);
                     for _ in 0..rng.gen_range(1..=4) {
                         let id = gen_id(&mut rng, &pool);
-                        if !items.iter().any(|x| x.0 == id) {
+                        if dups || !items.iter().any(|x| x.0 == id) {
                             items.push((id, gen_ts(&mut rng)));
                         }
                     }
@@ -688,11 +691,23 @@ impl Check for C17 {
                 20 => Call::KeyspaceList,
                 21..=22 => Call::Reopen,
                 23 => Call::KillCopy,
+                24 if backend != "mem" && rng.gen_bool(0.2) => {
+                    // one big batch: hundreds of small documents in a single bulk call
+                    let base: u64 = rng.gen_range(10_000..1_000_000);
+                    let docs: Vec<Doc> = (0..rng.gen_range(513..1_500u64)).map(|j| Doc { id: base + j, ts: gen_ts(&mut rng), len: rng.gen_range(0..16), fill: (j % 251) as u8 }).collect();
+                    Call::MultiPut { ks, docs, with_ctx: false }
+                },
                 _ => Call::Put { ks, doc: gen_doc(&mut rng, &pool, big), with_ctx: false },
             };
             events.push(c);
         }
         if mapfull {
+            // one bulk call that cannot fit into the 10 MiB map: it must fail as a whole
+            {
+                // (sized so that the first few hundred documents would fit and the rest would not)
+                let docs: Vec<Doc> = (0..1_100u64).map(|j| Doc { id: 5_000 + j, ts: gen_ts(&mut rng), len: 9_000, fill: (j % 251) as u8 }).collect();
+                events.push(Call::MultiPut { ks: kss[0].clone(), docs, with_ctx: false });
+            }
             // fill the 10 MiB map: large values until the store refuses
             for j in 0..14 {
                 events.push(Call::Put { ks: kss[0].clone(), doc: Doc { id: 1000 + j, ts: gen_ts(&mut rng), len: 1_000_000, fill: j as u8 }, with_ctx: false });
